@@ -205,12 +205,25 @@ def run_tlc(module, cfg, name, workers=4, timeout=1800, env_extra=None, replay_o
     return res
 
 
-def validate_trace(module, cfg, name, trace_file, timeout=1800, heap="8g", env_extra=None):
-    """TLC on a trace spec; the trace file is passed through IOEnv.TRACE."""
+def validate_trace(module, cfg, name, trace_file, timeout=1800, heap="8g", env_extra=None, allow_reject=False):
+    """TLC on a trace spec; the trace file is passed through IOEnv.TRACE.
+    allow_reject: for trace specs that ACCEPT BY POSTCONDITION (a record no step of the specification explains ends the
+    behaviour): a false postcondition is then a verdict (res.rejected_at = number of records consumed, res.rejected_event),
+    not a tool error."""
     env = {"TRACE": trace_file}
     if env_extra:
         env.update(env_extra)
     res = run_tlc(module, cfg, name, workers=1, timeout=timeout, env_extra=env, heap=heap, dfs=True)
+    res.rejected_at = None
+    if allow_reject and res.errors and all("Postcondition AllConsumed" in e or "behavior up to this point" in e for e in res.errors):
+        for line in open(res.log, errors="replace"):
+            m = re.match(r'<<"NOT_CONSUMED", (\d+), (\d+)(?:, "(.*)")?>>', line.strip())
+            if m:
+                res.rejected_at = int(m.group(1))
+                res.rejected_event = (m.group(3) or "").replace('\\"', '"')
+        if res.rejected_at is not None:
+            res.errors = []
+            return res
     if res.errors:
         # NOT_CONSUMED or evaluation errors inside the trace spec are tool/model errors, never silently ignored
         raise ToolError("trace validation %s did not complete: %s (log %s)" % (name, res.errors[:3], res.log))
